@@ -157,6 +157,7 @@ func runC04(c *Ctx) {
 	}
 	c.Floor("C04-R1", "ciphertext slots of persistence helpers", nSlots, 14)
 	c.Floor("C04-R1", "slot-filling call sites", nSites, 25)
+	checkCiphertextFieldSlots(c, "C04-R1")
 
 	// ---------- R2 ----------
 	nPut := 0
@@ -182,6 +183,7 @@ func runC04(c *Ctx) {
 		}
 	}
 	c.Floor("C04-R2", "database Put calls in waddrmgr", nPut, 25)
+	checkPublicClassPlaintext(c, "C04-R2")
 
 	// ---------- R3 ----------
 	for _, name := range []string{"putAddress", "markAddressUsed"} {
@@ -276,6 +278,8 @@ func runC04(c *Ctx) {
 	// ---------- R6 ----------
 	checkLockGating(c, "C04-R6")
 	checkUnlockRestoresWipedKeys(c, "C04-R7")
+	checkSnaclErrors(c, "C04-R7")
+	checkSelectedKeyUsedUnderLock(c, "C04-R6")
 	// live crypto keys never wiped through an aliasing accessor outside the wipe functions
 	nZero := 0
 	for _, fn := range p.FuncsIn("waddrmgr") {
